@@ -403,6 +403,9 @@ def corpus_headers(package="hdrs", byte_order=None):
         Composite("d_cntref", [Ref("blockLength", "U16"), Ref("numInGroup", "U8"), Ref("numGroups", "U8"),
                                Ref("numVarDataFields", "U32")]),
         Composite("d_opt", [Type("blockLength", "uint16", presence="optional"), Type("numInGroup", "uint8", presence="optional")]),
+        # exactly one of the two optional counters (added after seeded change C17-4: they are independent)
+        Composite("d_ng", [Type("blockLength", "uint16"), Type("numInGroup", "uint8"), Type("numGroups", "uint16")]),
+        Composite("d_nv", [Type("numVarDataFields", "uint16"), Type("blockLength", "uint8"), Type("numInGroup", "uint16")]),
     ]
     vds = []
     for l in UNSIGNED:
@@ -441,7 +444,13 @@ def corpus_headers(package="hdrs", byte_order=None):
                                       groups=[Group("r1", nid(), dimension_type="d_cntref",
                                                     data=[Data("y1", nid(), "v_8_char")])],
                                       data=[Data("y2", nid(), "v_16_uint8"), Data("y3", nid(), "v_ref")]),
-                                Group("opt", nid(), fields=[Field("a", nid(), "uint16")], dimension_type="d_opt")],
+                                Group("opt", nid(), fields=[Field("a", nid(), "uint16")], dimension_type="d_opt"),
+                                Group("ng", nid(), fields=[Field("a", nid(), "uint16")], dimension_type="d_ng",
+                                      groups=[Group("ng1", nid(), dimension_type="d_nv"), Group("ng2", nid(), dimension_type="d_ng")],
+                                      data=[Data("ngd", nid(), "v_8_char")]),
+                                Group("nv", nid(), fields=[Field("a", nid(), "uint16")], dimension_type="d_nv",
+                                      groups=[Group("nv1", nid(), dimension_type="d_ng", data=[Data("nvd0", nid(), "v_ref")])],
+                                      data=[Data("nvd1", nid(), "v_8_char"), Data("nvd2", nid(), "v_16_uint8")])],
                         data=[Data("m1", nid(), "v_ref"), Data("m2", nid(), "v_64_int8")]))
     k = 0
     for i in range(0, len(vds), 4):
@@ -454,9 +463,15 @@ def corpus_headers(package="hdrs", byte_order=None):
 def corpus_layout(package="layout", byte_order=None):
     """Custom offsets / explicit block lengths at every level, empty levels, deep nesting, several groups and data."""
     nid = _ids()
-    types = [std_header(), std_dimension(), std_vardata(),
+    hdr = std_header()
+    # a message header that declares exactly one of the optional counters (which one depends on the byte order flavour)
+    hdr.elements.append(Type("numVarDataFields", "uint16") if byte_order == "bigEndian" else Type("numGroups", "uint8"))
+    types = [hdr, std_dimension(), std_vardata(),
              Composite("P", [Type("a", "uint8"), Type("b", "uint32", offset=3), Composite("q", [Type("c", "int16", offset=2)], offset=9)]),
-             Type("K", "uint8", presence="constant", const="5")]
+             Type("K", "uint8", presence="constant", const="5"),
+             Enum("LE", "uint8", [EnumValue("A", "1"), EnumValue("B", "2")]),
+             SetT("LS", "uint16", [Choice("x", 0), Choice("y", 9)]),
+             Type("LArr", "char", length=3), Type("LOpt", "int16", presence="optional")]
     deep = Group("l1", nid(), block_length=12,
                  fields=[Field("a", nid(), "uint16", offset=1), Field("b", nid(), "uint8", offset=7)],
                  groups=[Group("l2", nid(), fields=[Field("c", nid(), "uint32", offset=2)],
@@ -493,6 +508,19 @@ def corpus_layout(package="layout", byte_order=None):
                               fields=[Field("k0", nid(), "K"), Field("v", nid(), "uint16"), Field("k1", nid(), "K"), Field("k2", nid(), "K")],
                               groups=[Group("in", nid(), block_length=4, fields=[Field("w", nid(), "uint8"), Field("k", nid(), "K")])])],
                 data=[Data("tail", nid(), "varDataEncoding")]),
+        # every kind of member as the LAST encoded field of a level (sbeppc generates the last field's cursor accessors
+        # separately per kind: they jump to the block end), with padded and exact blocks, also followed by a constant
+        # (added after seeded change C11-4: the enum flavour of that generator was never instantiated by a quick run)
+        Message("lastKinds", 10, block_length=6, fields=[Field("a", nid(), "uint8"), Field("e", nid(), "LE")],
+                groups=[Group("gEnum", nid(), block_length=5, fields=[Field("x", nid(), "uint8"), Field("e", nid(), "LE")]),
+                        Group("gSet", nid(), fields=[Field("x", nid(), "uint8"), Field("s", nid(), "LS")]),
+                        Group("gArr", nid(), block_length=7, fields=[Field("x", nid(), "uint8"), Field("r", nid(), "LArr")]),
+                        Group("gOpt", nid(), block_length=4, fields=[Field("x", nid(), "uint8"), Field("o", nid(), "LOpt")]),
+                        Group("gComp", nid(), block_length=16, fields=[Field("x", nid(), "uint8"), Field("p", nid(), "P")]),
+                        Group("gEnumK", nid(), block_length=4,
+                              fields=[Field("x", nid(), "uint8"), Field("e", nid(), "LE"), Field("k", nid(), "K")]),
+                        Group("gSetOnly", nid(), fields=[Field("s", nid(), "LS")],
+                              groups=[Group("inEnum", nid(), block_length=3, fields=[Field("e", nid(), "LE")])])]),
     ]
     return Schema(package, id=2, version=1, byte_order=byte_order, types=types, messages=msgs,
                   description="covering corpus: offsets and block lengths")
